@@ -15,7 +15,10 @@ import (
 	"github.com/mholt/caddy-l4/modules/l4clock"
 	"github.com/mholt/caddy-l4/modules/l4dns"
 	"github.com/mholt/caddy-l4/modules/l4http"
+	"github.com/mholt/caddy-l4/modules/l4openvpn"
 	"github.com/mholt/caddy-l4/modules/l4postgres"
+	"github.com/mholt/caddy-l4/modules/l4rdp"
+	"github.com/mholt/caddy-l4/modules/l4winbox"
 	"github.com/mholt/caddy-l4/modules/l4proxyprotocol"
 	"github.com/mholt/caddy-l4/modules/l4regexp"
 	"github.com/mholt/caddy-l4/modules/l4socks"
@@ -433,8 +436,98 @@ func VH_dns_rules() {
 	iff(matched, want, "dns rules")
 }
 
+// ---- Winbox auth message (single chunk): [len][06] user 00 key[32] parity ------------------------------
+func alnum(c byte) bool {
+	return (c >= '0' && c <= '9') || (c >= 'A' && c <= 'Z') || (c >= 'a' && c <= 'z')
+}
+func userChar(c byte) bool {
+	return alnum(c) || c == '-' || c == '#' || c == '.' || c == '@' || c == '_'
+}
+
+func winbox(m *l4winbox.MatchWinbox, wantRomon int, wantUser string, what string) {
+	u := 1 + vapi.Choice("userlen", 5) // total user field length incl. a possible "+r"
+	d := vapi.BytesN("D", 2+u+1+32+1)
+	// the user field contains no NUL, the delimiter follows it
+	for i := 0; i < u; i++ {
+		vapi.Assume(d[2+i] != 0)
+	}
+	matched := run(m, d, false)
+	romon := u >= 3 && d[2+u-2] == '+' && d[2+u-1] == 'r'
+	nameLen := u
+	if romon {
+		nameLen = u - 2
+	}
+	okName := alnum(d[2]) && alnum(d[2+nameLen-1])
+	for i := 1; i+1 < nameLen; i++ {
+		okName = vapi.And(okName, userChar(d[2+i]))
+	}
+	framed := int(d[0]) == len(d)-2 && d[1] == 6 && d[2+u] == 0
+	parityOK := d[len(d)-1] <= 1
+	modeOK := wantRomon < 0 || (wantRomon == 1) == romon
+	userOK := true
+	if wantUser != "" {
+		userOK = nameLen == len(wantUser)
+		for i := 0; i < len(wantUser) && i < nameLen; i++ {
+			userOK = vapi.And(userOK, d[2+i] == wantUser[i])
+		}
+	}
+	iff(matched, framed && parityOK && okName && modeOK && userOK, what)
+}
+
+func VH_winbox()       { winbox(&l4winbox.MatchWinbox{}, -1, "", "winbox") }
+func VH_winbox_romon() { winbox(&l4winbox.MatchWinbox{Modes: []string{"romon"}}, 1, "", "winbox romon only") }
+func VH_winbox_user() {
+	winbox(&l4winbox.MatchWinbox{Modes: []string{"standard"}, Username: "ab"}, 0, "ab", "winbox with user name")
+}
+
+// ---- OpenVPN plain mode (P_CONTROL_HARD_RESET_CLIENT_V2, no tls-auth) ---------------------------------------
+func ovpnPlain(udp bool) {
+	m := &l4openvpn.MatchOpenVPN{Modes: []string{"plain"}}
+	d := vapi.Bytes("D", 18)
+	matched := run(m, d, udp)
+	body := d
+	lenOK := true
+	if !udp {
+		lenOK = len(d) >= 2 && int(d[0])<<8|int(d[1]) == len(d)-2
+		if len(d) >= 2 {
+			body = d[2:]
+		}
+	}
+	wf := false
+	if lenOK && len(body) == 14 {
+		sid := false
+		for i := 1; i <= 8; i++ {
+			sid = vapi.Or(sid, body[i] != 0)
+		}
+		// opcode 7 in the high 5 bits, key id 0; session id non-zero; no acks; packet id 0
+		wf = body[0] == 7<<3 && sid && body[9] == 0 && body[10] == 0 && body[11] == 0 && body[12] == 0 && body[13] == 0
+	}
+	iff(matched, wf, "openvpn plain")
+}
+func VH_openvpn_plain_tcp() { ovpnPlain(false) }
+func VH_openvpn_plain_udp() { ovpnPlain(true) }
+
+// ---- RDP connection request carrying only an rdpNegReq (MS-RDPBCGR 2.2.1.1) -------------------------------------
+func VH_rdp_negreq() {
+	d := vapi.BytesN("D", 19)
+	for i := 11; i < 19; i++ {
+		vapi.Assume(d[i] != '\r') // no cookie / token line
+	}
+	matched := run(&l4rdp.MatchRDP{}, d, false)
+	tpkt := d[0] == 3 && d[1] == 0 && d[2] == 0 && d[3] == 19
+	x224 := d[4] == 14 && d[5] == 0xE0 && d[6] == 0 && d[7] == 0 && d[8] == 0 && d[9] == 0 && d[10] == 0
+	flags := d[12]
+	proto := uint32(d[15]) | uint32(d[16])<<8 | uint32(d[17])<<16 | uint32(d[18])<<24
+	neg := d[11] == 1 && flags&^0x0B == 0 && d[13] == 8 && d[14] == 0 && proto&^0x1F == 0 &&
+		!(proto&8 != 0 && proto&2 == 0) && !(proto&2 != 0 && proto&1 == 0)
+	corr := flags&8 != 0 // correlation info announced but absent: not a well-formed request
+	iff(matched, tpkt && x224 && neg && !corr, "rdp negotiation request")
+}
+
 func init() {
 	for name, f := range map[string]func(){
+		"VH_winbox": VH_winbox, "VH_winbox_romon": VH_winbox_romon, "VH_winbox_user": VH_winbox_user,
+		"VH_openvpn_plain_tcp": VH_openvpn_plain_tcp, "VH_openvpn_plain_udp": VH_openvpn_plain_udp, "VH_rdp_negreq": VH_rdp_negreq,
 		"VH_ssh": VH_ssh, "VH_xmpp": VH_xmpp, "VH_proxyproto": VH_proxyproto, "VH_socks4": VH_socks4, "VH_socks4_filter": VH_socks4_filter,
 		"VH_socks5": VH_socks5, "VH_socks5_filter": VH_socks5_filter, "VH_regexp": VH_regexp, "VH_wireguard": VH_wireguard,
 		"VH_wireguard_zero": VH_wireguard_zero, "VH_postgres": VH_postgres, "VH_ishttp": VH_ishttp, "VH_not": VH_not, "VH_ip": VH_ip,
